@@ -320,3 +320,6 @@ def run(chk):
     chk.guard('C07.N', check_counter, chk, pm)
     chk.guard('C07.R', check_readers, chk, sch)
     chk.guard('C07.F', c01.check_error_shapes, chk, pm, 'C07.F')
+    from .c10 import check_layout_sim
+    chk.rule('C10.L', 'shared with C10: every respelling of a block keyword line is lowered to the same jumps and labels (parse_script evaluated on layout variants, E6p)')
+    chk.guard('C10.L', check_layout_sim, chk)
